@@ -54,7 +54,7 @@ def run(tier, seed):
     n = 2500 if tier == 'quick' else 40000
 
     # 1. proof stage
-    P = R.proof_stage()
+    P = IC.proof_stage_with_translation(R)
     proof_broken = not P['ok']
     if proof_broken:
         R.notes.append('proof stage: ' + P['log'][-1500:])
@@ -212,6 +212,7 @@ def run(tier, seed):
         R.notes.append(f'{len(mismatches)} mismatches; first: {mismatches[0]}')
     R.coverage['rule'] = RULE
     return R.finish(level='proof', trusted_base=C.TRUSTED_COMMON + [
+        IC.TRANSLATOR_TRUST,
         'harness/impl/interp_runner.py: request codec, full-expansion helper (Instantiate nodes expanded bottom-up with the '
         'real Pattern.instantiate), symbol names str(n) <-> n, and the typed wrapper `Checked` that turns an ill-typed '
         'argument (Proved where a Pattern is expected) into a reject on malformed streams',
